@@ -120,8 +120,14 @@ def cases(tier, seed):
         rng = gen.rng_for(seed, "C02", i)
         els = [rand_el(rng) for _ in range(rng.randint(1, 5))]
         n = rng.randint(0, 12)
-        yield {"k": "trace", "els": els, "n": n, "inf": rng.random() < 0.35,
+        rec = {"k": "trace", "els": els, "n": n, "inf": rng.random() < 0.35,
                "stops": sorted(set(rng.randint(0, 8) for _ in range(2)))}
+        x = rng.random()
+        if x < 0.15:
+            rec["form"] = "seq-copy"
+        elif x < 0.3:
+            rec["form"] = "source-reiterable"
+        yield rec
     big = 400 if tier == "quick" else 3000
     for s in range(1, 6):
         for form in ["stop", "start_stop", "neg_start", "neg_start_pos_stop", "neg_neg", "step"]:
@@ -131,6 +137,10 @@ def cases(tier, seed):
             for cb in [True, False]:
                 yield {"k": "splitblocks", "bufsize": b, "branches": nb, "copy_buf": cb, "n": 11}
     yield {"k": "builtins"}
+    # elements that write files: nothing on disk and nothing pulled when run() is called
+    for which in ("cache", "cache-in-source", "write", "tocsv-write"):
+        for n in (0, 3):
+            yield {"k": "fswork", "which": which, "n": n}
 
 
 # ------------------------------------------------------------------ builders
@@ -286,6 +296,16 @@ def _ref_neg_slice(flow, start, stop, step):
     return itertools.islice(core(), None, None, step)
 
 
+class ReIterable(object):
+    """A lazy collection: not an iterator, every iter() of it reads the underlying probe."""
+
+    def __init__(self, probe):
+        self._probe = probe
+
+    def __iter__(self):
+        return iter(self._probe)
+
+
 def build_pair(recipes):
     """Build the real pipeline and a twin set of elements for the reference."""
     import lena.core
@@ -368,8 +388,19 @@ def run_case(r, obs):
     if k == "trace":
         els_r, n = r["els"], r["n"]
 
+        form = r.get("form", "seq")
+
         def real_start(probe, _els=els_r):
+            if form == "source-reiterable":
+                # the flow given to a Source as a lazy re-iterable object (not an iterator):
+                # building the Source and calling it reads nothing
+                return lena.core.Source(ReIterable(probe), *[build(e) for e in _els])()
             real, _ = build_pair(_els)
+            if form == "seq-copy":
+                # a deep copy of the pipeline (what SplitIntoBins / MapBins / Vectorize run):
+                # same elements, same options, same laziness
+                import copy
+                real = copy.deepcopy(real)
             return real.run(probe)
 
         def ref_start(probe, _els=els_r):
@@ -394,7 +425,8 @@ def run_case(r, obs):
         obs.count("got_events", len(res))
         if len(els_r) >= 2 and res:
             obs.nontrivial = True
-        sig = "els=%r n=%r inf=%s" % (els_r, n, r["inf"])
+        sig = "els=%r n=%r inf=%s%s" % (els_r, n, r["inf"],
+                                        "" if form == "seq" else " form=" + form)
         obs.check(before == 0, "work-before-demand",
                   "%d values pulled when run() was called, before the first next() (%s)"
                   % (before or 0, sig))
@@ -522,6 +554,66 @@ def run_case(r, obs):
         if ok:
             obs.check(all(delivered[y] == nb for y in range(n)), "split-loses-results",
                       "Split delivered %r" % (dict(delivered),))
+    elif k == "fswork":
+        import os
+        import shutil
+        import tempfile
+        import lena.output
+        import lena.structures
+        from rv.monitors import audit
+        obs.nontrivial = True
+        d = tempfile.mkdtemp(prefix="rv_c02_fs_")
+        try:
+            which, n = r["which"], r["n"]
+            vals = [("text %d" % i, {"output": {"filename": "f%d" % i}}) for i in range(n)]
+            tr = Trace()
+            probe = Probe(tr, n=n, make=lambda i: vals[i])
+            if which.startswith("cache"):
+                els = [lena.flow.Cache(os.path.join(d, "c.pkl"))]
+            elif which == "write":
+                els = [lena.output.Write(os.path.join(d, "out"), verbose=False)]
+            else:
+                hs = [(lena.structures.histogram([0, 1, 2], [i, i + 1]),
+                       {"output": {"filename": "h%d" % i}}) for i in range(n)]
+                probe = Probe(tr, n=n, make=lambda i: hs[i])
+                els = [lena.output.ToCSV(), lena.output.Write(os.path.join(d, "out"),
+                                                              verbose=False)]
+            audit.start(prefix=d)
+            try:
+                if which == "cache-in-source":
+                    src = lena.core.Source(ReIterable(probe), *els)
+                    it = src()
+                else:
+                    it = lena.core.Sequence(*els).run(probe)
+                log_at_run = audit.snapshot()
+                listing_at_run = sorted(os.listdir(d))
+                pulls_at_run = probe.i
+                # the result is dropped without ever being iterated
+                if hasattr(it, "close"):
+                    it.close()
+                del it
+                listing_dropped = sorted(os.listdir(d))
+                # a second run, consumed to the end
+                tr2 = Trace()
+                probe2 = Probe(tr2, n=n, make=probe.make)
+                out = list(lena.core.Sequence(*els).run(probe2))
+            finally:
+                audit.stop()
+            obs.count("fs_lazy_checks")
+            events = [e for e in log_at_run if e[0] in ("open", "mkdir", "remove", "rename")
+                      and (e[0] != "open" or audit.is_write_mode(e[2]))]
+            obs.check(not events and not listing_at_run and pulls_at_run == 0,
+                      "work-before-demand:file-system:" + which,
+                      "%s: when run() / the Source was called (no value requested yet) %d values "
+                      "had been pulled, file-system events %r, directory listing %r"
+                      % (which, pulls_at_run, events, listing_at_run))
+            obs.check(not listing_dropped, "work-before-demand:files-left-by-a-run-never-iterated:"
+                      + which, "%s: a flow that was composed but never iterated left %r"
+                      % (which, listing_dropped))
+            obs.check(len(out) == n, "values-differ-from-lazy-reference",
+                      "%s yielded %d values for %d" % (which, len(out), n))
+        finally:
+            shutil.rmtree(d, ignore_errors=True)
     elif k == "builtins":
         # the trace checker itself: an eager reference must be caught by the same oracle
         obs.nontrivial = True
